@@ -372,6 +372,9 @@ def api_verified(ctx, rule):
     itself being right: the 48 conversion cells, the string wrappers, the storage pair and the prefix table are
     verified here and count for that property as one obligation (plus one per failing item, reported at its site)."""
     before = len(ctx.obs)
+    # structural obligations first: they stand even when the interpretation below cannot go through
+    from .configtime import config_at_call_time
+    config_at_call_time(ctx, rule, classes=('Unit', 'Substance'))
     convert_from_cells(ctx, rule)
     wrappers(ctx, rule)
     storage_pair(ctx, rule, rule)
